@@ -71,7 +71,7 @@ def model_source(text, uri, opts, base=0, media_type=MEDIA_TYPE, first=False):
                     out.append({"pickle": p})
                 ndraws = a + len(cr["draws"])
             else:
-                out.append({"__foreign__": cr["norm"]})
+                out.append({"__foreign__": cr.get("norm", ["no compile reference: the default-mode reference parse does not accept this text"])})
         return out, ndraws, True
     if pr["kind"] == "composite":
         errs = pr["norm"]
